@@ -481,3 +481,28 @@ class Check:
         return rc
 
     broken = ()
+
+
+def run_api_worker(prop, job, timeout=900):
+    """Build the cdylib from /repo, run harness/py/api_worker.py for `prop` on `job` (a dict).  Returns (result|None, log)."""
+    import tempfile
+    ok, log, so = cargo_build_cdylib()
+    if not ok:
+        return None, "cargo build of /repo failed:\n" + log[-3000:]
+    job = dict(job)
+    job["so"] = so
+    job["repo"] = REPO
+    d = tempfile.mkdtemp(prefix="gsjob", dir=CACHE)
+    jf, of = os.path.join(d, "job.json"), os.path.join(d, "out.json")
+    with open(jf, "w") as f:
+        json.dump(job, f)
+    rc, out = sh([sys.executable, os.path.join(VERIF, "harness/py/api_worker.py"), prop, jf, of], timeout=timeout)
+    res = None
+    if os.path.exists(of):
+        try:
+            res = json.load(open(of))
+        except ValueError:
+            res = None
+    import shutil
+    shutil.rmtree(d, ignore_errors=True)
+    return res, out
